@@ -65,6 +65,8 @@ def cases(group):
             for spec in REGS:
                 for space in ("feature", "sample"):
                     yield dict(X=X, Y=Y, k=k, reg=spec, space=space)
+                    if k < kmax and spec == "linreg":
+                        yield dict(X=X, Y=Y, k=k, reg=spec, space=space, solver="arpack")
 
 
 def _competitors(ref, k, T, n):
@@ -121,7 +123,7 @@ def check(case):
     shared = pcov.make_regressor(spec)
     if shared is not None:
         Xo = pcov.center(X[::-1, ::-1] * 0.75 + 0.5)
-        _, exc0 = pcov.fit_pcovr(Xo, Y[::-1] * -0.5, 0.5, k, spec, space, "full", regressor_obj=shared)
+        _, exc0 = pcov.fit_pcovr(Xo, Y[::-1] * -0.5, 0.5, k, spec, space, case.get("solver", "full"), regressor_obj=shared)
         r.transitions += 1
         if exc0 is not None:
             return r.fail("crash:%s" % type(exc0).__name__, "fit with the shared regressor on other data: %r" % exc0)
@@ -130,7 +132,7 @@ def check(case):
         rankX = ref.rankX
         if ref.condX > 2e3:
             return r.skip("X ill conditioned on its non-zero spectrum")
-        est, exc = pcov.fit_pcovr(X, Y, mixing, k, spec, space, "full", regressor_obj=shared)
+        est, exc = pcov.fit_pcovr(X, Y, mixing, k, spec, space, case.get("solver", "full"), regressor_obj=shared)
         r.transitions += 1
         if exc is not None:
             r.fail("crash:%s" % type(exc).__name__, "mixing=%g: %r" % (mixing, exc))
